@@ -222,6 +222,42 @@ func wcChild(a []string) string {
 		}
 		sort.Strings(ls)
 		extraListen = strings.Join(ls, "+")
+	case "listenclose":
+		// a Listen call arrives while a Close is waiting for the silent peer's reply: the first reader is still there
+		if !listen {
+			startListen()
+			waitReading()
+			listen = true
+		}
+		cres := make(chan string, 1)
+		t0 := time.Now()
+		go func() { cres <- classifyErr(conn.Close()) }()
+		// wait until the close frame is out (the closer is then waiting for the reader or the deadline)
+		for i := 0; i < 4000; i++ {
+			f.mu.Lock()
+			nf := len(f.frames)
+			f.mu.Unlock()
+			if nf > 0 {
+				break
+			}
+			time.Sleep(200 * time.Microsecond)
+		}
+		l2 := make(chan string, 1)
+		go func() { l2 <- classifyErr(conn.Listen()) }()
+		select {
+		case r := <-l2:
+			extraListen = r
+		case <-time.After(100 * time.Millisecond):
+			extraListen = "admitted" // it is sitting in a read loop of its own
+		}
+		results = append(results, <-cres)
+		maxms = time.Since(t0).Milliseconds()
+		if extraListen == "admitted" {
+			select {
+			case <-l2:
+			case <-time.After(2 * time.Second):
+			}
+		}
 	case "errwriters":
 		// the reader ends with a transport error (peer = sever) or keeps running; the connection stays open and
 		// n goroutines write data frames at once; then one Close
@@ -379,9 +415,11 @@ func init() {
 	suites["wsconn"] = func(o *Out, r *Rng, n int, tier string) {
 		peers := []string{"echo", "silent", "first1000", "first1001", "sever", "writefail"}
 		for i := 0; i < n; i++ {
-			switch r.Intn(8) {
+			switch r.Intn(9) {
 			case 5:
 				o.emit("C16", "WC", "listeners", itoa(int64(2+r.Intn(7))), "f", peers[r.Intn(2)], itoa(int64(i)))
+			case 7:
+				o.emit("C16", "WC", "listenclose", "1", "t", "silent", itoa(int64(i)))
 			case 4:
 				o.emit("C16", "WC", "errwriters", itoa(int64(2+r.Intn(6))), "t", []string{"sever", "sever", "echo", "silent"}[r.Intn(4)], itoa(int64(i)))
 			case 6:
